@@ -395,6 +395,8 @@ Result<WorkResult, WorkError>
             }
             else
             {
+                info.blob.forget_replaced_file_states(&resolutions);
+
                 let file_state_vec = match info.blob.get_current_file_state_vec(&info.system)
                 {
                     Ok(file_state_vec) => file_state_vec,
